@@ -972,15 +972,15 @@ class Fetcher:
                 tp_state.reset_to(committed.offset)
 
         topic_data = collections.defaultdict(list)
-        needs_reset = []
+        needs_reset = {}
         for tp in tps:
             tp_state = assignment.state_value(tp)
             if not tp_state.awaiting_reset:
                 continue
-            needs_reset.append(tp)
 
             strategy = tp_state.reset_strategy
             assert strategy is not None
+            needs_reset[tp] = strategy
             log.debug(
                 "Resetting offset for partition %s using %s strategy.",
                 tp,
@@ -1001,11 +1001,13 @@ class Fetcher:
         except asyncio.CancelledError:
             return needs_wakeup
 
-        for tp in needs_reset:
+        for tp, strategy in needs_reset.items():
             offset = offsets[tp][0]
             tp_state = assignment.state_value(tp)
-            # There could have been some `seek` call while fetching offset
-            if tp_state.awaiting_reset:
+            # There could have been some `seek` call while fetching offset,
+            # `seek_to_beginning`/`seek_to_end` included: those ask for another
+            # reset, which this answer must not complete
+            if tp_state.awaiting_reset and tp_state.reset_strategy == strategy:
                 tp_state.reset_to(offset)
         return needs_wakeup
 
